@@ -155,8 +155,8 @@ claim("C20",
 
 claim("C04",
       "Decides injectivity of the key framing and agreement of the normalisation ladders: (R-KEY-1) everything written into a comparison-key buffer is a constant tag, a numeric rendering, an already serialised key, or text passed through an escaper that handles both the separator and its own escape character (genuine defect repaired); "
-      "(R-KEY-2) both tuple serialisers write the same separator exactly for components i>0; (R-KEY-3) SerializeKey follows the documented ladder in every abstract world, the ladder CompareCombinedly is checked against (R-CMP-3); (R-KEY-4) strict-mode type tags are pairwise distinct.",
-      "Not decided: per-aggregate arithmetic, 'exactly the rows of its bucket', that consumers use the whole key (R-KEY-5 not built). Escaper recognition covers strings.NewReplacer/ReplaceAll with constant pairs and byte-comparison loops.",
+      "(R-KEY-2) both tuple serialisers write the same separator exactly for components i>0; (R-KEY-3) SerializeKey follows the documented ladder in every abstract world, the ladder CompareCombinedly is checked against (R-CMP-3); (R-KEY-4) strict-mode type tags are pairwise distinct; (R-KEY-5) every fill starts from an empty buffer and consumers use the buffer's whole String() as key.",
+      "Not decided: per-aggregate arithmetic, 'exactly the rows of its bucket', Escaper recognition covers strings.NewReplacer/ReplaceAll with constant pairs and byte-comparison loops.",
       "taint analysis of key-buffer writes with callee/caller resolution; finite-domain abstract interpretation for the ladder",
       "DESIGN.md §3 C04")
 
